@@ -297,6 +297,27 @@ def trace (content : List Char) (off : Nat) : TraceR :=
     | none => .panic
     | some (_, tail) => .ok loc.line (off - loc.lineStartChar) (lineOf tail)
 
+/-! ## `Tracer::trace_end_of_input` -/
+
+/-- The loop of `trace_end_of_input` over `content.char_indices()`: `ll` = (index, byte start)
+of the current line, `lne` = the same for the last line that has a non-white character. -/
+def eoiLoop : List Char → Nat → Nat × Nat → Nat × Nat → Nat × Nat
+  | [], _, _, lne => lne
+  | c :: cs, bi, ll, lne =>
+    if !isWhite c then eoiLoop cs (bi + u8len c) ll ll
+    else if c = '\n' then eoiLoop cs (bi + u8len c) (ll.1 + 1, bi + 1) lne
+    else eoiLoop cs (bi + u8len c) ll lne
+
+/-- `trace_end_of_input` (with fixes/C09-e.patch the index counts characters): the last
+non-empty line, trimmed, and the position just after it. -/
+def traceEoi (content : List Char) : TraceR :=
+  let lne := eoiLoop content 0 (0, 0) (0, 0)
+  match splitAtByte content lne.2 with
+  | none => .panic
+  | some (_, tail) =>
+    let l := trimEnd tail
+    .ok (lne.1 + 1) l.length l
+
 /-! ## Small numeric kernels -/
 
 inductive R (α : Type) where
